@@ -366,6 +366,14 @@ class ComputeLikelihood:
         g = gridded_data
         total = _rs(lambda i: g.f((i,)), to_z3(g.shape[0]))
         undefined = z3.Or(total == 0, to_real(n_obs) == 0, to_real(expected_cond_count) == 0)
+        if c.ctx.ghost.get('plh_minus_inf'):
+            # ASSUMED (float semantics, outside model R): an event in a cell of rate 0 makes the score log(0) = -inf.  Opt-in by
+            # the caller's contract (pseudolikelihood_test, whose 'undersampled' path tests for exactly this value).
+            from pyvc.core import Opaque
+            i = z3.Int('i!zr')
+            rate = apprx_rate_density
+            if c.ctx.branch(z3.Exists([i], z3.And(0 <= i, i < to_z3(g.shape[0]), to_real(g.f((i,))) != 0, to_real(rate.f((i,))) == 0))):
+                return (Opaque('inf', sign=-1), Opaque('inf', sign=-1))
         plh = c.ctx.fresh_real('pseudo_likelihood')
         if c.ctx.branch(undefined):
             return (plh, NAN)
@@ -377,6 +385,9 @@ class ComputeLikelihood:
         n_obs, E = to_real(n_obs), to_real(E)
         yield 'returns a pair', z3.BoolVal(isinstance(r, tuple) and len(r) == 2)
         plh, lnorm = r
+        from pyvc.core import Opaque
+        if isinstance(plh, Opaque) and plh.name == 'inf':
+            return          # the assumed -inf case of the modular result: nothing further is known (or needed)
         total = _rs(lambda i: g.f((i,)), n)
         tot_rate = _rs(lambda i: rate.f((i,)), n)
         empty = total == 0
